@@ -133,7 +133,8 @@ def gen_lu_script(tier, seed, k):
     rnd = run.rng("C13", tier, seed, "lu", k)
     L = []
     kind = rnd.choice(["rand", "tri", "singleton", "dense", "nearsing", "rand"])
-    n = rnd.choice([2, 3, 4, 5, 6, 8, 12, 20, 35, 60]) if tier == "thorough" else rnd.choice([2, 3, 4, 5, 6, 8, 12, 20])
+    # from dimension 21 on the solves switch between sparse and dense kernels by the fill of their work vector (5% rule)
+    n = rnd.choice([2, 3, 4, 5, 6, 8, 12, 20, 21, 24, 35, 60]) if tier == "thorough" else rnd.choice([2, 3, 4, 5, 6, 8, 12, 20, 21, 24, 30])
     def val():
         t = rnd.random()
         if t < 0.7:
@@ -186,13 +187,28 @@ def gen_lu_script(tier, seed, k):
         L.append("col %d %d %s" % (j, len(ents), " ".join("%d %s" % (i, fmt(v)) for i, v in ents)))
     L.append("factor")
     cur = [[A[i][j] for i in range(n)] for j in range(n)]      # current columns (valid while the library agrees with exact maths)
-    for _ in range(rnd.randint(1, 45 if tier == "quick" else 150)):
+    def sparse_sol():
+        ks = rnd.sample(range(n), rnd.randint(1, min(n, 2)))
+        return {kk: val() or F(1) for kk in ks}
+    for _ in range(rnd.randint(1, (45 if n <= 20 else 14) if tier == "quick" else 150)):
         t = rnd.random()
         if t < 0.3:
-            rhs = [(i, val()) for i in range(n) if rnd.random() < 0.5]
+            if rnd.random() < 0.4:
+                # dense right-hand side whose solution is sparse: a = sum_j x_j B_j
+                x = sparse_sol()
+                rhs = [(i, sum((xj * cur[j][i] for j, xj in x.items()), Z)) for i in range(n)]
+                rhs = [(i, v) for i, v in rhs if v != 0]
+            else:
+                rhs = [(i, val()) for i in range(n) if rnd.random() < 0.5]
             L.append("ftran %d %s" % (len(rhs), " ".join("%d %s" % (i, fmt(v)) for i, v in rhs)))
         elif t < 0.5:
-            rhs = [(i, val()) for i in range(n) if rnd.random() < 0.5]
+            if rnd.random() < 0.4:
+                # a^T = y^T B with y sparse: the intermediate vectors of btran are sparse although a is dense
+                y = sparse_sol()
+                rhs = [(j, sum((yi * cur[j][i] for i, yi in y.items()), Z)) for j in range(n)]
+                rhs = [(j, v) for j, v in rhs if v != 0]
+            else:
+                rhs = [(i, val()) for i in range(n) if rnd.random() < 0.5]
             L.append("btran %d %s" % (len(rhs), " ".join("%d %s" % (i, fmt(v)) for i, v in rhs)))
         else:
             j = rnd.randrange(n)
